@@ -6,11 +6,14 @@ from props import solver_common as sc
 
 ID = 'C05'
 PROPS_FILE = 'Props/C05.v'
-MODEL_FILES = ['Solver/Solver.v', 'Solver/SolverF.v', 'Solver/SolveAll.v', 'Solver/SolveAllF.v']
-K_NAME = ('K_solve (SolveAll.solve_M / solve_period_M over Solver.solve_t_M, instantiated with PrimFloat, vs SolverMixin.solve / '
-          'solve_period / iter_periods of scripted models over range, list, NumPy and pandas spans)')
-RULE = ('scripted models over span types {range, list of str, NumPy int / str array, pandas Index int / str, quarterly PeriodIndex, and '
-        'list / NumPy / pandas spans with a repeated label} x span length 0..4 (5 at the thorough tier) x EVERY (start, end) pair over '
+MODEL_FILES = ['Solver/Solver.v', 'Solver/SolverF.v', 'Solver/SolveAll.v', 'Solver/SolveAllSpan.v', 'Solver/SolveAllF.v']
+K_NAME = ('K_solve (SolveAll.solve_M / solve_period_M over Solver.solve_t_M, instantiated with PrimFloat, with SolveAllSpan.locate_span = '
+          'the dispatch of _locate_period_in_span over the regenerated _VALID_INDEX_METHODS (list.index / NumPy fallback / modelled '
+          'pandas get_loc), vs SolverMixin.solve / solve_period / iter_periods of scripted and parser-built models over range, list, '
+          'tuple, NumPy and pandas spans)')
+RULE = ('scripted models over span types {range, list / tuple of str, NumPy int / str array, pandas Index int / str, quarterly PeriodIndex, '
+        'list / NumPy / pandas spans with a repeated label (adjacent and non-monotonic repeats), and range / list / NumPy / pandas spans '
+        'holding a FALSY label (integer 0, empty string) at position 1} x span length 0..4 (5 at the thorough tier) x EVERY (start, end) pair over '
         '{default, each label, an unknown label; PeriodIndex also: the label written as a string, a year that matches several quarters} '
         '(so reversed, equal, boundary and unknown pairs are all present) x a fault (exception in a pass, exception in the pre-hook, '
         'NaN, +inf, non-convergence, warning) at each position in turn x errors / failures / catch_first_error / min_iter / max_iter / '
@@ -20,8 +23,10 @@ RULE = ('scripted models over span types {range, list of str, NumPy int / str ar
         'solve_t over the positions the statement names. Non-trivial = at least two periods visited, or a fault / label error / '
         'infeasible period was met; distinct by hash of the whole case.')
 TRUSTED = ['scripted-model subclass harness/scripted.py (same script is the Coq oracle)',
-           'pandas spans: the model\'s `locate` is the table of get_loc answers recorded from the run (their correctness is checked by the '
-           'oracle: every label must resolve to its own position)']
+           'labels are compared as integer ids (id of a label = first position holding an equal label, computed by the harness with ==)',
+           'PeriodIndex spans only: the model\'s `locate` is the table of get_loc answers recorded from the run (get_loc parses strings and '
+           'partial dates there; the oracle checks that every label resolves to its own position); plain pandas Index, NumPy, list, tuple '
+           'and range spans use the modelled lookup']
 ASSUMPTIONS = ['_evaluate and the hooks write only the column of the period they are called for (frame premise of C05_failure_containment; '
                'true of the scripted models used here, C05_scripted_oracles_frame)',
                'the statement\'s clauses about labels are evaluated on spans without repeated labels (with repeats the lookup itself is '
